@@ -63,9 +63,13 @@ def allfit(bits, m, op, a, b=0):
         if a > 0 and a != t:
             t += m
         return fits(t, bits)
-    if op == "round":
+    if op == "round":  # judged whenever the exact result is representable (no margin at the limits)
         t = tq(a, m) * m
-        return fits(t + m, bits) and fits(t - m, bits)
+        if a - t >= m // 2:
+            t += m
+        elif a - t <= -(m // 2):
+            t -= m
+        return fits(t, bits)
     if op == "inc":
         return fits(a + m, bits)
     if op == "dec":
